@@ -184,6 +184,8 @@ func genRun(r *lib.Rand, k int) input {
 		switch {
 		case r.Chance(14):
 			in.Events = append(in.Events, hookEvent{K: "hup"})
+		case !seconds && r.Chance(8):
+			in.Events = append(in.Events, hookEvent{K: "touch", ID: r.Intn(4), Body: base64.StdEncoding.EncodeToString([]byte(fmt.Sprintf("foreign-%d\n", i)))})
 		case midInterval && r.Chance(25):
 			in.Events = append(in.Events, hookEvent{K: "sleep", Ms: 900})
 		case seconds && r.Chance(20):
@@ -226,6 +228,16 @@ func fixedRuns() []input {
 	out = append(out, input{Kind: "run", Name: "fixed-collide-out", Work: true, Opts: o,
 		Pre:    []preFile{{Dir: "out", Rev: 0, B64: b("precious-0\n")}, {Dir: "out", Rev: 1, B64: b("precious-1\n")}, {Dir: "work", Rev: 2, B64: b("w2\n")}},
 		Events: append(msgs(3), hookEvent{K: "term"})})
+	// a file appears in the output dir while the work file is open: Close must bump the rev
+	o = base
+	o.GZIP = true
+	out = append(out, input{Kind: "run", Name: "fixed-collide-at-rename", Work: true, Opts: o,
+		Events: append(msgs(2), hookEvent{K: "touch", ID: 0, Body: b("foreign-0\n")}, hookEvent{K: "touch", ID: 1, Body: b("foreign-1\n")},
+			hookEvent{K: "hup"}, hookEvent{K: "msg", ID: 3, Body: b("m3")}, hookEvent{K: "touch", ID: 3, Body: b("foreign-3\n")}, hookEvent{K: "term"})})
+	o = base
+	o.RotateIntervalNs = 1
+	out = append(out, input{Kind: "run", Name: "fixed-collide-at-create", Opts: o,
+		Events: append(msgs(1), hookEvent{K: "touch", ID: 1, Body: b("foreign-1\n")}, hookEvent{K: "msg", ID: 2, Body: b("m2")}, hookEvent{K: "term"})})
 	// plain append to an existing file, tiny rotate-size
 	o = base
 	o.RotateSize = 10
@@ -366,6 +378,12 @@ func runScript(bin string, in input, scratch string) ([]lib.Case, string) {
 			bodies[e.ID] = b
 		}
 	}
+	touchBody := map[int][]byte{}
+	for i, e := range in.Events {
+		if e.K == "touch" {
+			touchBody[i], _ = base64.StdEncoding.DecodeString(e.Body)
+		}
+	}
 	var cases []lib.Case
 	tags := []string{
 		"gzip=" + lib.CoqBool(o.GZIP), "work=" + lib.CoqBool(in.Work), "skip_empty=" + lib.CoqBool(o.SkipEmpty),
@@ -475,6 +493,12 @@ func runScript(bin string, in input, scratch string) ([]lib.Case, string) {
 			nmsg++
 		case "hup":
 			jevs = append(jevs, "J19.JHup")
+		case "touch":
+			for _, m := range tr.Markers {
+				if m["m"] == "TOUCHED" && int(num(m, "i")) == i {
+					jevs = append(jevs, fmt.Sprintf("(J19.JTouch %s %s)", coqKey("out", fmt.Sprint(m["name"])), lib.CoqBytes(touchBody[i])))
+				}
+			}
 		case "term":
 			jevs = append(jevs, "J19.JTerm")
 		}
